@@ -188,9 +188,153 @@ func pathVariants(pairs [][2]int) []variant {
 	return out
 }
 
-// structVariants lists the structured-input cases of f in state st (nil for functions without an
-// input structure in memory).
+// ---- output-size boundaries
+//
+// For every function that writes variable-length output into a guest buffer of guest-given length the
+// natural output length L is known from the prepared state, and the buffer length runs over
+// {0, 1, L-1, L, L+1, 2L} with the buffer placed (a) in the middle of memory between 0xA5 sentinel bytes
+// and (b) ending exactly at the end of linear memory.
+
+const (
+	aMid     = 0x8000 // buffer of placement (a)
+	aMidFrom = 0x7f00 // sentinel region [aMidFrom, aMidTo)
+	aMidTo   = 0x8500
+)
+
+var sentinel = func() []byte {
+	b := make([]byte, aMidTo-aMidFrom)
+	for i := range b {
+		b[i] = 0xA5
+	}
+	return b
+}()
+
+// prepared symlinks: name (8 bytes) -> target length
+var linkTargets = []struct {
+	name   string
+	target string
+}{
+	{"lnk001__", "a"},
+	{"lnk016__", "0123456789abcdef"},
+	{"symlink0", "subdir00/inner.txt"},
+	{"lnk255__", string(bytesOf('t', 255))},
+}
+
+func bytesOf(c byte, n int) []byte {
+	b := make([]byte, n)
+	for i := range b {
+		b[i] = c
+	}
+	return b
+}
+
+func boundaryLens(L int) []uint64 {
+	var out []uint64
+next:
+	for _, v := range []int{0, 1, L - 1, L, L + 1, 2 * L} {
+		if v < 0 {
+			continue
+		}
+		for _, o := range out {
+			if o == uint64(v) {
+				continue next
+			}
+		}
+		out = append(out, uint64(v))
+	}
+	return out
+}
+
+// placements of a buffer of n bytes: (a) between sentinels, (b) ending exactly at the end of memory
+func placements(n uint64) []struct {
+	tag string
+	at  uint64
+} {
+	return []struct {
+		tag string
+		at  uint64
+	}{{"mid", aMid}, {"end", memSize - n}}
+}
+
+func boundaryVariants(f *fn) []variant {
+	var out []variant
+	base := []memPatch{{aMidFrom, sentinel}}
+	// buf/len style functions: (buffer param, length param, extra patches/args, natural lengths)
+	bufLen := func(tag string, bufP, lenP int, L int, patches []memPatch, args map[int]uint64) {
+		for _, n := range boundaryLens(L) {
+			for _, pl := range placements(n) {
+				a := map[int]uint64{bufP: pl.at, lenP: n}
+				for k, v := range args {
+					a[k] = v
+				}
+				out = append(out, variant{name: fmt.Sprintf("out-boundary %s L=%d len=%d at-%s", tag, L, n, pl.tag),
+					patches: append(append([]memPatch{}, base...), patches...), args: a})
+			}
+		}
+	}
+	switch f.name {
+	case "path_readlink":
+		for _, l := range linkTargets {
+			bufLen("readlink("+l.name+")", 3, 4, len(l.target), []memPatch{{aPathA, []byte(l.name)}}, map[int]uint64{1: aPathA, 2: uint64(len(l.name))})
+		}
+	case "fd_readdir":
+		// subdir00 lists ".", "..", "inner.txt": dirents of 25, 26 and 33 bytes; 24 = header only
+		for _, L := range []int{24, 25, 51, 84} {
+			bufLen("readdir(subdir00)", 1, 2, L, nil, map[int]uint64{0: symDir})
+		}
+	case "fd_prestat_dir_name":
+		bufLen("prestat_dir_name(/)", 1, 2, 1, nil, nil)
+	case "random_get":
+		bufLen("random", 0, 1, 16, nil, nil)
+	case "fd_read", "fd_pread":
+		// file.txt holds 100 bytes: one iovec of each boundary length
+		for _, n := range boundaryLens(len(fileContent)) {
+			for _, pl := range placements(n) {
+				iov := make([]byte, 8)
+				binary.LittleEndian.PutUint32(iov, uint32(pl.at))
+				binary.LittleEndian.PutUint32(iov[4:], uint32(n))
+				out = append(out, variant{name: fmt.Sprintf("out-boundary read(file.txt) L=%d len=%d at-%s", len(fileContent), n, pl.tag),
+					patches: append(append([]memPatch{}, base...), memPatch{aIovs, iov}), args: map[int]uint64{1: aIovs, 2: 1}})
+			}
+		}
+	case "args_get", "environ_get":
+		ptrs, bytes := uint64(4*argc), uint64(argBytes)
+		if f.name == "environ_get" {
+			ptrs, bytes = 4*envc, envBytes
+		}
+		for _, c := range []struct {
+			tag      string
+			vec, buf uint64
+		}{
+			{"both-mid", aMid, aMid + 0x100},
+			{"buf-fits-exactly-at-end", aMid, memSize - bytes},
+			{"buf-one-byte-short-at-end", aMid, memSize - bytes + 1},
+			{"vec-fits-exactly-at-end", memSize - ptrs, aMid},
+			{"vec-one-byte-short-at-end", memSize - ptrs + 1, aMid},
+			{"vec-then-buf-exactly-at-end", memSize - bytes - ptrs, memSize - bytes},
+		} {
+			out = append(out, variant{name: "out-boundary " + f.name + " " + c.tag, patches: base, args: map[int]uint64{0: c.vec, 1: c.buf}})
+		}
+	case "poll_oneoff":
+		for n := uint64(1); n <= 3; n++ {
+			for _, c := range []struct {
+				tag string
+				at  uint64
+			}{{"mid", aMid}, {"exactly-at-end", memSize - 32*n}, {"one-byte-short-at-end", memSize - 32*n + 1}} {
+				out = append(out, variant{name: fmt.Sprintf("out-boundary events n=%d %s", n, c.tag), patches: base, args: map[int]uint64{1: c.at, 2: n}})
+			}
+		}
+	}
+	return out
+}
+
+// structVariants lists the structured-input and output-boundary cases of f in state st (nil for
+// functions with neither).
 func structVariants(f *fn, st int) []variant {
+	return append(structInputVariants(f, st), boundaryVariants(f)...)
+}
+
+func structInputVariants(f *fn, st int) []variant {
 	if f.name == "poll_oneoff" {
 		return pollVariants(st)
 	}
